@@ -11,27 +11,27 @@ def absTuA (g : RcObserver) : St2 := .takeUntil g.isSome
 def absTuB (g : TakeUntilNotifierObserver) : St2 := .takeUntil g.main_observer.isSome
 
 theorem tie_Tu_a_next (g : RcObserver) (v : Val) :
-    (RcObserver.next g v).map (fun r => (absTuA r.1, r.2)) = some (St2.step (absTuA g) .a (.next v)) := by
+    (RcObserver.next g v).map (fun r => (absTuA r.1, r.2)) = some (Rs.lift (St2.step (absTuA g) .a (.next v))) := by
   cases g <;> rs_tie [RcObserver.next, absTuA, St2.step, St2.guard]
 
 theorem tie_Tu_a_error (g : RcObserver) (e : Err) :
-    (RcObserver.error g e).map (fun r => (absTuA r.1, r.2)) = some (St2.step (absTuA g) .a (.error e)) := by
+    (RcObserver.error g e).map (fun r => (absTuA r.1, r.2)) = some (Rs.lift (St2.step (absTuA g) .a (.error e))) := by
   cases g <;> rs_tie [RcObserver.error, absTuA, St2.step, St2.guard]
 
 theorem tie_Tu_a_complete (g : RcObserver) :
-    (RcObserver.complete g).map (fun r => (absTuA r.1, r.2)) = some (St2.step (absTuA g) .a .complete) := by
+    (RcObserver.complete g).map (fun r => (absTuA r.1, r.2)) = some (Rs.lift (St2.step (absTuA g) .a .complete)) := by
   cases g <;> rs_tie [RcObserver.complete, absTuA, St2.step, St2.guard]
 
 theorem tie_Tu_b_next (g : TakeUntilNotifierObserver) (v : Val) :
-    (TakeUntilNotifierObserver.next g v).map (fun r => (absTuB r.1, r.2)) = some (St2.step (absTuB g) .b (.next v)) := by
+    (TakeUntilNotifierObserver.next g v).map (fun r => (absTuB r.1, r.2)) = some (Rs.lift (St2.step (absTuB g) .b (.next v))) := by
   rcases g with ⟨_ | _⟩ <;> rs_tie [TakeUntilNotifierObserver.next, RcObserver.complete, absTuB, St2.step, St2.guard]
 
 theorem tie_Tu_b_error (g : TakeUntilNotifierObserver) (e : Err) :
-    (TakeUntilNotifierObserver.error g e).map (fun r => (absTuB r.1, r.2)) = some (St2.step (absTuB g) .b (.error e)) := by
+    (TakeUntilNotifierObserver.error g e).map (fun r => (absTuB r.1, r.2)) = some (Rs.lift (St2.step (absTuB g) .b (.error e))) := by
   rcases g with ⟨_ | _⟩ <;> rs_tie [TakeUntilNotifierObserver.error, absTuB, St2.step, St2.guard]
 
 theorem tie_Tu_b_complete (g : TakeUntilNotifierObserver) :
-    (TakeUntilNotifierObserver.complete g).map (fun r => (absTuB r.1, r.2)) = some (St2.step (absTuB g) .b .complete) := by
+    (TakeUntilNotifierObserver.complete g).map (fun r => (absTuB r.1, r.2)) = some (Rs.lift (St2.step (absTuB g) .b .complete)) := by
   rcases g with ⟨_ | _⟩ <;> rs_tie [TakeUntilNotifierObserver.complete, absTuB, St2.step, St2.guard]
 
 
